@@ -38,6 +38,16 @@ func vpMk_Type(shape int, tag byte) ActivityVocabularyType { return NoteType }
 func vpEq_Type(a, b ActivityVocabularyType) bool           { return a == b }
 func vpZero_Type(a ActivityVocabularyType) bool            { return len(a) == 0 }
 
+// a property that holds a type name (formerType): a vocabulary name of another family than the holder
+func vpMk_TypeName(shape int, tag byte) ActivityVocabularyType {
+	if shape == 1 {
+		return LikeType
+	}
+	return PersonType
+}
+func vpEq_TypeName(a, b ActivityVocabularyType) bool { return a == b }
+func vpZero_TypeName(a ActivityVocabularyType) bool  { return len(a) == 0 }
+
 func vpMk_Mime(shape int, tag byte) MimeType {
 	return MimeType("text/" + string([]byte{vpLeafLower(), vpLeafLower()}))
 }
@@ -109,6 +119,12 @@ func vpMk_Items(shape int, tag byte) ItemCollection {
 		return ItemCollection{vpMkIRI(tag), vpMkIRI(tag + 1)}
 	case 2:
 		return ItemCollection{vpMkIRI(tag), &Object{ID: vpMkIRI(tag + 1), Type: NoteType}}
+	case 4: // a repeated member (only offered where the codec promises to keep lists as they are: gob)
+		a := vpMkIRI(tag)
+		return ItemCollection{a, vpMkIRI(tag + 1), a}
+	case 5:
+		a := vpMkIRI(tag)
+		return ItemCollection{&Object{ID: a, Type: NoteType}, vpMkIRI(tag + 1), &Object{ID: a, Type: NoteType}}
 	default:
 		return ItemCollection{&Object{ID: vpMkIRI(tag), Type: NoteType}}
 	}
@@ -142,8 +158,14 @@ func vpMk_Duration(shape int, tag byte) time.Duration { return vpDurations[shape
 func vpEq_Duration(a, b time.Duration) bool         { return a == b }
 func vpZero_Duration(a time.Duration) bool          { return a == 0 }
 
-// source: 0 content + media type, 1 content only
+// source: 0 content + media type, 1 content only, 2 media type only, 3 two-language content only
 func vpMk_Source(shape int, tag byte) Source {
+	if shape == 2 {
+		return Source{MediaType: vpMk_Mime(0, tag)}
+	}
+	if shape == 3 {
+		return Source{Content: vpMk_NLV(2, tag)}
+	}
 	s := Source{Content: vpMk_NLV(0, tag)}
 	if shape == 0 {
 		s.MediaType = vpMk_Mime(0, tag)
@@ -192,8 +214,18 @@ func vpMk_LangRef(shape int, tag byte) LangRef { return LangRef([]byte{vpLeafLow
 func vpEq_LangRef(a, b LangRef) bool           { return a == b }
 func vpZero_LangRef(a LangRef) bool            { return len(a) == 0 }
 
+// public key: shape 0 all three members, shape 1+k only member k
 func vpMk_PublicKey(shape int, tag byte) PublicKey {
-	return PublicKey{ID: vpMkIRI(tag), Owner: vpMkIRI(tag + 1), PublicKeyPem: "-----BEGIN " + string([]byte{vpLeafLower()}) + "-----"}
+	all := PublicKey{ID: vpMkIRI(tag), Owner: vpMkIRI(tag + 1), PublicKeyPem: "-----BEGIN " + string([]byte{vpLeafLower()}) + "-----"}
+	switch shape {
+	case 1:
+		return PublicKey{ID: all.ID}
+	case 2:
+		return PublicKey{Owner: all.Owner}
+	case 3:
+		return PublicKey{PublicKeyPem: all.PublicKeyPem}
+	}
+	return all
 }
 func vpEq_PublicKey(a, b PublicKey) bool {
 	return a.ID == b.ID && a.Owner == b.Owner && a.PublicKeyPem == b.PublicKeyPem
@@ -202,8 +234,22 @@ func vpZero_PublicKey(a PublicKey) bool {
 	return len(a.ID) == 0 && len(a.Owner) == 0 && len(a.PublicKeyPem) == 0
 }
 
+// endpoints: shape 0 only sharedInbox, shape 1+k only the k-th member of the struct (from the
+// generated field table, so a member added to the struct is covered), last shape all members
 func vpMk_Endpoints(shape int, tag byte) *Endpoints {
-	return &Endpoints{SharedInbox: vpMkIRI(tag)}
+	n := len(vpFields_Endpoints)
+	e := &Endpoints{}
+	switch {
+	case shape == 0:
+		e.SharedInbox = vpMkIRI(tag)
+	case shape <= n:
+		vpSet_Endpoints(e, shape-1, 0, tag)
+	default:
+		for k := 0; k < n; k++ {
+			vpSet_Endpoints(e, k, 0, tag+byte(k))
+		}
+	}
+	return e
 }
 func vpEq_Endpoints(a, b *Endpoints) bool {
 	if a == nil || b == nil {
@@ -224,7 +270,13 @@ func vpShapes(kind string) int {
 		return 4
 	case "Time", "Duration", "Float":
 		return 3
-	case "Source", "Int":
+	case "Source", "PublicKey":
+		return 4
+	case "TypeName":
+		return 2
+	case "Endpoints":
+		return len(vpFields_Endpoints) + 2
+	case "Int":
 		return 2
 	case "Type", "Unknown":
 		return 0
